@@ -544,6 +544,13 @@ class Exec:
             if m.group(2) == "MAX":
                 return bv_const((1 << (w - 1)) - 1 if sg else (1 << w) - 1, m.group(1))
             return bv_const(-(1 << (w - 1)) if sg else 0, m.group(1))
+        m = re.match(r"^'(\\?.)'$", c)
+        if m:
+            ch = m.group(1)
+            ch = {"\\n": "\n", "\\t": "\t", "\\\\": "\\", "\\'": "'"}.get(ch, ch[-1])
+            return BV(z3.BitVecVal(ord(ch), 32))
+        if c == "RangeFull":
+            return Adt("RangeFull", None, [])
         if c == "true":
             return Bool(True)
         if c == "false":
@@ -572,6 +579,9 @@ class Exec:
                 if name.endswith("::" + want) and tail in name:
                     return self.call_fn(f, [])
             raise Unsupported(f"promoted constant not found: {c}")
+        m = re.match(r"^(?:\w+::)*(\w+)::(\w+)$", c)
+        if m and any(m.group(2) in variants for variants in self.enums.get(m.group(1), [])):
+            return Adt(m.group(1), m.group(2), [])      # field-less enum variant used as a constant
         name = normalize_callee(c)
         if name in self.summaries:
             return self.summaries[name](self, Call(c, name, [], [], None))
